@@ -11,6 +11,7 @@ import (
 	"container/list"
 	"context"
 	"fmt"
+	"math"
 	"net"
 	"reflect"
 	"runtime"
@@ -79,6 +80,7 @@ type DSystem struct {
 	Wall     bool     // res: the last client can be put into / taken out of the walled garden
 	Rule     bool     // res: name 1 can be blocked / unblocked
 	Loop     bool     // res: Resolver.Start (the real cleanup ticker runs)
+	FFwd     bool     // res: "ffwd" in the alphabet: the round-robin counter as it is after 2^31-1 upstream queries
 	NegOp    bool     // cache: SetNegative in the alphabet
 	DelOps   bool     // cache: Delete / Clear / Cleanup in the alphabet
 	KeyCheck bool     // the set of keys held is compared with the ghost (off where two questions may share a key)
@@ -115,7 +117,7 @@ func (s *DSystem) Config() map[string]any {
 	}
 	return map[string]any{"impl": s.name, "kind": s.Kind, "cap": s.Cap, "min": s.Min, "max": s.Max, "neg": s.Neg, "unit": UnitSec,
 		"nk": s.NK, "nc": s.NC, "nup": s.NUp, "qname": qn, "qaddr": qa, "keycheck": s.KeyCheck,
-		"types": ty, "pairs": pairs, "scripts": append([]string{}, s.Scripts...), "wall": s.Wall, "rule": s.Rule, "loop": s.Loop,
+		"types": ty, "pairs": pairs, "scripts": append([]string{}, s.Scripts...), "wall": s.Wall, "rule": s.Rule, "loop": s.Loop, "ffwd": s.FFwd,
 		"negop": s.NegOp, "delops": s.DelOps, "nsubs": 0}
 }
 
@@ -139,7 +141,7 @@ func fromCfg(name string, cfg map[string]any) *DSystem {
 		return nil
 	}
 	s := &DSystem{name: name, Kind: fmt.Sprint(cfg["kind"]), Cap: toInt(cfg["cap"]), Min: toInt(cfg["min"]), Max: toInt(cfg["max"]), Neg: toInt(cfg["neg"]),
-		NK: toInt(cfg["nk"]), NC: toInt(cfg["nc"]), NUp: toInt(cfg["nup"]), Wall: toBool(cfg["wall"]), Rule: toBool(cfg["rule"]), Loop: toBool(cfg["loop"]),
+		NK: toInt(cfg["nk"]), NC: toInt(cfg["nc"]), NUp: toInt(cfg["nup"]), Wall: toBool(cfg["wall"]), Rule: toBool(cfg["rule"]), Loop: toBool(cfg["loop"]), FFwd: toBool(cfg["ffwd"]),
 		NegOp: toBool(cfg["negop"]), DelOps: toBool(cfg["delops"]), KeyCheck: toBool(cfg["keycheck"])}
 	if l, ok := cfg["types"].([]any); ok {
 		for _, t := range l {
@@ -221,6 +223,9 @@ func (s *DSystem) Events() []core.Event {
 	}
 	if s.Rule {
 		evs = append(evs, mk("rule", 1, 0, 0, 0, "", true), mk("rule", 1, 0, 0, 0, "", false))
+	}
+	if s.FFwd {
+		evs = append(evs, mk("ffwd", 0, 0, 0, 0, "", false))
 	}
 	evs = append(evs, mk("adv", 0, 0, 0, 0, "", false))
 	return evs
@@ -443,10 +448,16 @@ func (in *inst) Apply(ev core.Event) map[string]any {
 			in.res.RemoveInterceptRule(qName(k))
 			delete(in.rules, k)
 		}
+	case "ffwd":
+		// fast-forward: Resolver.upstreamIndex (int32, incremented per upstream query, never reset) as it stands after
+		// 2^31-1 upstream queries - the harness cannot make them one by one
+		core.Field(in.res, "upstreamIndex").SetInt(math.MaxInt32)
 	case "q":
 		install(scr, val, ttl*UnitSec)
 		resp, err := in.res.Resolve(context.Background(), &dns.Query{Name: qName(in.s.qname(k)), Type: uint16(in.s.qtype(k)), Class: 1, Source: clientIP(c)})
-		r["ups"] = asked()
+		ups := asked()
+		settle(len(ups))
+		r["ups"] = ups
 		install("", 0, 0)
 		if err != nil || resp == nil {
 			r["err"] = true
@@ -542,7 +553,11 @@ func (in *inst) Fingerprint() string {
 			fmt.Fprintf(&sb, " rule=%s/%d/%t", rl.Domain, rl.Action, rl.Exact)
 		}
 		idx := core.Field(in.res, "upstreamIndex").Int()
-		fmt.Fprintf(&sb, " rr=%d", idx%int64(in.s.NUp))
+		if idx < 0 || idx > math.MaxInt32-1000 {
+			fmt.Fprintf(&sb, " rr=raw%d", idx)
+		} else {
+			fmt.Fprintf(&sb, " rr=%d", idx%int64(in.s.NUp))
+		}
 		if in.s.Loop {
 			fmt.Fprintf(&sb, " phase=%d", int(now.Sub(in.t0)/Unit)%3)
 		}
